@@ -36,7 +36,7 @@ def run(ctx):
     from dtaidistance import dtw, dtw_ndim
     res = Result()
     res.rule = ("random queries x candidate lists (1..N series, duplicates and ties) x k in 1..N+1 or None x "
-                "window/penalty/psi x max_dist/max_value x use_lb x use_c x ndim; every answer compared with the "
+                "window/penalty/psi x max_dist/max_value/max_dist inside dists_options (and their combinations) x use_lb x use_c x ndim; every answer compared with the "
                 "exhaustive scan computed by the plain distance routine (and, at model level, the Lean k-NN fold); "
                 "operation sequences of kbest_matches/best_match/align on one object vs fresh objects; "
                 "non-trivial = more than one candidate")
@@ -52,7 +52,7 @@ def run(ctx):
                     any(dc.degenerate_psi({"s1": q, "s2": c, "ndim": nd, "psi": opts["psi"]}) for c in cands):
                 del opts["psi"]
         mod = dtw if nd == 1 else dtw_ndim
-        exhaustive = [float(mod.distance(qa, c, **opts)) for c in ca]
+        exhaustive = [float(mod.distance(qa, c, **opts)) for c in ca]      # opts holds no threshold yet
         use_lb = rng.random() < 0.6
         use_c = rng.random() < 0.5
         md = None
@@ -65,9 +65,23 @@ def run(ctx):
                 md = None
         elif finite and r0 < 0.4:
             mv = (rng.choice(finite) + 0.25) / len(qa)
+        # a threshold given through dists_options: used when the max_dist argument is absent, combined with max_value
+        omd = None
+        if finite and rng.random() < 0.25:
+            omd = rng.choice(finite) + rng.choice([0.25, -0.25, 3.0])
+            if omd <= 0:
+                omd = None
+            elif mv is None and rng.random() < 0.6:
+                mv = (rng.choice(finite) + rng.choice([0.25, 3.0])) / len(qa)
+        if omd is not None:
+            opts = dict(opts, max_dist=omd)
+            res.hit("max_dist_in_dists_options" + ("+max_value" if mv is not None else "") +
+                    ("+max_dist" if md is not None else ""))
         bound = math.inf
         if md is not None:
             bound = md
+        elif omd is not None:
+            bound = omd
         if mv is not None:
             bound = min(bound, mv * len(qa))
         qualifying = sorted(d for d in exhaustive if d <= bound and not math.isinf(d))
@@ -127,7 +141,7 @@ def run(ctx):
                 res.violations.append(dict(info, clause="kbest_matches(k=None) raised",
                                            got=impl.exc_name(e) + ":" + str(e)[:80]))
         # correspondence with the Lean model (exact internal distances and lower bounds; univariate, no psi)
-        if nd == 1 and "psi" not in opts and md is None and mv is None:
+        if nd == 1 and "psi" not in opts and md is None and mv is None and omd is None:
             base = {"ndim": 1, "inner": "sq", "window": opts.get("window"),
                     "penalty": int(opts["penalty"]) if "penalty" in opts else None}
             dops = [dc.lean_op(dict(base, s1=q, s2=c), engine="py") for c in cands] + \
